@@ -55,3 +55,30 @@ int narrow_checked(const char *s)
 }
 
 }
+
+// a library number parser used as a digit decoder (accepts " 7", "+7", "-1", "0x7")
+#include <string>
+#include <stdexcept>
+namespace verif_probe {
+
+int lenient_hex(const std::string &s)
+{
+    size_t n = 0;
+    int v = std::stoi(s, &n, 16);
+    if (n != 2)
+        throw std::out_of_range("two hex digits expected");
+    return v;
+}
+
+int strict_hex(const std::string &s)
+{
+    int v = 0;
+    for (char c : s) {
+        if (c >= '0' && c <= '9') v = v * 16 + (c - '0');
+        else if (c >= 'a' && c <= 'f') v = v * 16 + (c - 'a' + 10);
+        else throw std::out_of_range("hex digit expected");
+    }
+    return v;
+}
+
+}
